@@ -59,11 +59,10 @@ and `{math:e}` (texts, paths and expressions free of `{ < }`, paths of 1..255 un
 exactly one Variable / RawVariable / Math tag per segment at the offsets the printer put them
 (`tagsOf`), nothing else; a Math tag holds the expression list scanned in place. -/
 theorem parse_segs {R : Type} (cfg : ScanCfg R) (segs : List Seg) (hok : ∀ s ∈ segs, s.ok)
-    (hsc : ∀ s ∈ segs, s.scanOk cfg.readNum)
     (hn : (printList (segsTpl segs)).length + 16 < 4294967296) :
     parse cfg (printList (segsTpl segs)) = .ok (tagsOf cfg (printList (segsTpl segs)) 0 segs) := by
   rw [printSegs_eq] at hn ⊢
-  exact Qentem.Tmpl.parse_segs cfg segs hok hsc hn
+  exact Qentem.Tmpl.parse_segs cfg segs hok (fun s _ => Seg.scanOk_all _ s) hn
 
 /-- a path of the documented shape `name[k1][k2]…` (non-empty name, no bracket inside the name or
 a key) is looked up by the renderer exactly as the document says (`resolve`), whether or not it
@@ -98,16 +97,16 @@ theorem scan_eval_relocatable {R : Type} [RealLike R] (cfg cfg' : ScanCfg R)
 paths have the documented shape and 1..255 units and may or may not resolve in the value (an
 unresolved `{var:}` prints its own escaped source, an unresolved `{raw:}` / a `{math:}` without a
 value its source); the value, the number reader, the real-number formatter and the escape switch
-are arbitrary but the same on both sides.  `scanOk`: the model scanner does not run out of its
-fuel on the expression text (a property of the model's fuel). -/
+are arbitrary but the same on both sides. -/
 theorem render_parse_print_segs {R : Type} [RealLike R] (cx : RCtx R) (sx : SpecCtx R)
     (cfg : ScanCfg R) (segs : List Seg) (hg : cx.guardIndexRead = true) (same : SameCtx cx sx)
     (hrn : cfg.readNum = cx.readNum)
     (hc : cx.content = printList (segsTpl segs)) (hok : ∀ s ∈ segs, s.ok)
-    (hpath : ∀ s ∈ segs, s.pathOk) (hsc : ∀ s ∈ segs, s.scanOk cfg.readNum)
+    (hpath : ∀ s ∈ segs, s.pathOk)
     (hn : cx.content.length + 16 < 4294967296) (fuel fuel' : Nat) :
     (parse cfg cx.content).bind (fun tags => renderTop cx tags (nTags segs + 2 + fuel)) =
       .ok (expand sx (segsTpl segs) (segs.length + 1 + fuel')) := by
+  have hsc : ∀ s ∈ segs, s.scanOk cfg.readNum := fun s _ => Seg.scanOk_all _ s
   rw [printSegs_eq] at hc
   have hn' := hn
   rw [hc] at hn'
@@ -117,13 +116,6 @@ theorem render_parse_print_segs {R : Type} [RealLike R] (cx : RCtx R) (sx : Spec
   simp only [Except.bind]
   rw [render_segs cx cfg hg hrn segs hc hpath hok hsc _ (by omega), expand,
     expandList_segs cx sx same segs _ (by omega)]
-
-/-- non-vacuity: `{math:1+2*3}` satisfies `scanOk` with the decimal reader of the driver's shape
-(here: a reader that accepts single digits). -/
-example : Seg.scanOk (R := Rat) (fun s => match s with | [d] => if 48 ≤ d ∧ d ≤ 57 then some (.nat (d - 48)) else none | _ => none)
-    (.math [49, 43, 50, 42, 51]) := by
-  refine ⟨[(.num (.nat 1), .add), (.num (.nat 2), .mul), (.num (.nat 3), .noOp)], ?_⟩
-  with_unfolding_all rfl
 
 /-- side conditions under which the document determines the output (the generator of
 `checks/c02.py` produces exactly such templates) — informal list kept next to the statement:
